@@ -7,6 +7,7 @@ mod c03;
 mod c04;
 mod c05;
 mod c06;
+mod c07;
 mod c08;
 mod c10;
 mod c11;
@@ -47,6 +48,7 @@ fn main() {
             let prop = args.get(2).map(|s| s.as_str()).unwrap_or("");
             let cases: Vec<String> = match prop {
                 "C13" => c13::cases().iter().map(|c| c.to_json()).collect(),
+                "C07" => c07::cases().iter().map(|c| c.to_json()).collect(),
                 _ => { eprintln!("no engine cases for {prop}"); std::process::exit(2) }
             };
             for c in cases { println!("CASE {c}"); }
